@@ -230,6 +230,7 @@ def check(ctx, report):
     spf_term_spellings(ctx, report)
     media_type_case(ctx, report)
     token_enums_case(ctx, report, spec)
+    quoted_components(ctx, report)
     report.floor('C18.R1', 24, 'named components')
 
 
@@ -1009,3 +1010,124 @@ def token_enums_case(ctx, report, spec, RULE='C18.R11'):
         if not same or other:
             report.add(RULE, '%s@matcher[exact]' % c.construct, '_code_eq of %s does not tell equal tokens from different ones' % name)
     report.floor(RULE, 10, 'case-insensitive token enumerations')
+
+
+# ---- R12: quoted components ----------------------------------------------------------------------------------------------------
+
+def quoted_components(ctx, report, RULE='C18.R12'):
+    """The components whose value is written as a quoted string (``name="value"``: pins, report URIs, base64 data ...): the real
+    ``compose`` of every concrete class is evaluated for sample values, and the real ``_parse`` of the same class is evaluated on
+    the composed spelling and on the spelling without the quotes (RFC 9110 5.6.4 / RFC 7469 2.1: a parameter value is a token or a
+    quoted-string, the quotes are not part of the value).  Both must be accepted and give the value that was composed.  The base64
+    codec is the standard library's, the data type of the dependency is modelled by its definition (value + base64 text)."""
+    import ast
+    import base64
+    from ..miniexec import Evaluator, Native, Raised, Unsupported, class_call_hook, exception_values
+    from ..textmodel import TextParser
+    model = ctx.model
+    report.rule(RULE, 'quoted components: the composed spelling and the unquoted one are accepted by the class that wrote them and give the same value')
+    root = model.try_cls('FieldValueComponentQuotedString')
+    if root is None:
+        report.error('%s: FieldValueComponentQuotedString vanished' % RULE)
+        return
+
+    class B64(Native):
+        """cryptodatahub.common.types.Base64Data: the bytes, rendered as their base64 text"""
+        def __init__(self, value):
+            self.value = bytes(value)
+
+        def __str__(self):
+            return base64.b64encode(self.value).decode('ascii')
+
+        def __format__(self, spec):
+            return format(str(self), spec)
+
+        def __eq__(self, other):
+            return isinstance(other, B64) and other.value == self.value
+
+        def __hash__(self):
+            return hash(self.value)
+
+        def __repr__(self):
+            return 'Base64Data(%r)' % self.value
+
+    class Composer(Native):
+        def __init__(self):
+            self.text = ''
+
+        def compose_string(self, v):
+            self.text += str(v)
+
+        def compose_separator(self, v):
+            self.text += v
+
+        def compose_string_array(self, values, separator=','):
+            self.text += separator.join(str(v) for v in values)
+
+        @property
+        def composed(self):
+            return self.text.encode('ascii')
+    exc = exception_values('InvalidValue', 'InvalidType', 'NotEnoughData')
+    n = 0
+    for k in sorted(model.repo_classes(), key=lambda x: x.construct):
+        if not k.is_subclass_of(root.name) or k.abstract_methods:
+            continue
+        fp, fc, fn = k.resolve('_parse'), k.resolve('compose'), k.resolve('get_canonical_name')
+        if fp is None or fc is None or fn is None or fn.abstract:
+            continue
+        is_b64 = k.is_subclass_of('FieldValueComponentStringBase64')
+        samples = [B64(b'pin-sha256'), B64(bytes(range(250, 256)) * 5 + b'\x00'), B64(b'')] if is_b64 else ['abc', 'a b', 'https://a.example/r?x=1']
+        report.touch(fp)
+        report.touch(fc)
+
+        def extra(node, ev, k=k):
+            d = ast.unparse(node.func)
+            if d == 'ComposerText':
+                return Composer()
+            if d == 'ParserText':
+                return TextParser(ev.ev(node.args[0]))
+            if d == 'Base64Data':
+                return B64(ev.ev(node.args[0]))
+            if d in ('cls', k.name) and len(node.args) == 1 and not node.keywords:
+                return ('made', ev.ev(node.args[0]))
+            return exc(node, ev)
+
+        class Me(Native):
+            _repo_class = k
+
+            def __init__(self, value):
+                self.value = value
+
+        class Cls(Native):
+            _repo_class = k
+        hook = class_call_hook(k, extra, model)
+        problems = {}
+        try:
+            for value in samples:
+                composed = Evaluator({'self': Me(value)}, hook, hook.name_hook_for(fc.module, None)).function(fc.node)
+                composed = bytes(composed)
+                if b'"' not in composed:
+                    continue        # not written quoted: nothing to compare
+                spellings = [('composed', composed), ('unquoted', composed.replace(b'"', b''))]
+                if (not is_b64 and b' ' in composed) or b'""' in composed:
+                    spellings = spellings[:1]       # a value with a space and the empty value have no unquoted spelling (a token is not empty)
+                for kind, text in spellings:
+                    n += 1
+                    try:
+                        got = Evaluator({'cls': Cls(), 'parsable': text}, hook, hook.name_hook_for(fp.module, None)).function(fp.node)
+                    except Raised as e:
+                        problems.setdefault(kind, 'the %s spelling %r of %r is refused (%s)' % (kind, text, value, e.what[:50]))
+                        continue
+                    obj = got[0] if isinstance(got, tuple) and got else got
+                    val = obj[1] if isinstance(obj, tuple) and len(obj) == 2 and obj[0] == 'made' else obj
+                    if val != value:
+                        problems.setdefault(kind, 'the %s spelling %r of %r is read as %r' % (kind, text, value, val))
+                    elif isinstance(got, tuple) and len(got) == 2 and got[1] != len(text):
+                        problems.setdefault(kind + '-length', 'the %s spelling %r is reported %r characters long' % (kind, text, got[1]))
+        except (Unsupported, Raised) as e:
+            report.undecided.append('%s: %s left the subset the evaluation understands (%s)' % (RULE, k.name, e))
+            continue
+        for kind, text in sorted(problems.items()):
+            report.add(RULE, '%s@quoted[%s]' % (k.construct, kind), text + ': optional quoting changes what is parsed, or the class does not accept what it writes')
+    report.count(RULE, n)
+    report.floor(RULE, 10, 'spellings of quoted components')
